@@ -37,6 +37,8 @@ PATH_EXPRS = [("$.a[0]", None), ("$..b", None), ("$[?@.b == 'x']", None), ("$.a[
               ("$.a[", "JSONPathSyntaxError"), ("$[?@.a.* == 1]", "JSONPathTypeError"), ("$[?nosuch(@)]", "JSONPathNameError"),
               ("$[9007199254740992]", "JSONPathIndexError"), ("$[?length(@.a) && @.b]", "JSONPathTypeError"), ("$[?@ =~ /(/]", "JSONPathSyntaxError"),
               ("$['\\u00e9']", None), ("", None),
+              # compound queries (every operand reads the same document, which the front end hands over as a file)
+              ("$.a[0] | $.s", None), ("$.a[*] & $.a[0]", None), ("$.a[0] | $.zz | $.t", None), ("$..b | $.a[1] & $.a[*]", None),
               # queries spread over several lines (blank space may be a line feed), a blank first line
               ("$.a\n  [2]\n  .b", None), ("\n$.a[0]", None), ("$[?@.b\n == 'x']", None), ("$.a[0,\n1]", None), ("$.a\n[", "JSONPathSyntaxError")]
 POINTERS = [("/a/0", None), ("/a/2/b", None), ("", None), ("/s", None), ("/a/9", "JSONPointerIndexError"), ("/zz", "JSONPointerKeyError"),
